@@ -163,6 +163,7 @@ def execute(case, chooser, fault=None):
     # restoring tcsetattr itself), later operations must again leave the terminal as THEY find it
     tty.fault = None
     tty.log_calls = False
+    tty.chooser = None           # the follow-up is one fixed execution: replies arrive at once, no schedule choices
     if plan is not None:
         plan.fired = True
     found = copy.deepcopy(tty.attrs)
